@@ -96,9 +96,22 @@ def pb(s):
     return s == "T"
 
 
-def parse_buf(s):
+# the caller's mutable buffers: ONE bytearray object per argument position for the whole session, rewritten in place
+# before each call (an application that re-uses its transmit buffer).  A library that kept a reference to a buffer it
+# was handed - instead of copying what it needs - would see it change under its feet.
+_POOL = []
+
+
+def reset_pool():
+    del _POOL[:]
+
+
+def parse_buf(s, k=0):
     if s.startswith("m:"):
-        return bytearray(unhex(s[2:]))
+        while len(_POOL) <= k:
+            _POOL.append(bytearray())
+        _POOL[k][:] = unhex(s[2:])
+        return _POOL[k]
     if s.startswith("i:"):
         return unhex(s[2:])
     raise Infra("bad buffer " + s)
@@ -205,7 +218,7 @@ def rf24_call(d, toks):
         r = d.send(buf, pb(t[2]), int(t[3]), pb(t[4]))
         return f"{s_send_res(r)} buf={hx(buf)}"
     if m == "sendl":
-        bufs = [parse_buf(x) for x in t[4:]]
+        bufs = [parse_buf(x, k) for k, x in enumerate(t[4:])]
         r = d.send(bufs, pb(t[1]), int(t[2]), pb(t[3]))
         return "[" + ",".join(s_send_res(x) for x in r) + "] buf=" + ",".join(hx(b) for b in bufs)
     if m == "write":
@@ -264,6 +277,7 @@ def rf24_call(d, toks):
 
 class Session:
     def __init__(self, nradios: int, plus: bool):
+        reset_pool()
         self.world = SimWorld(nradios, plus)
         simradio.patch_time(self.world)
         self.objs = {}
